@@ -96,33 +96,20 @@ Proof.
 Qed.
 
 (* ---------------------------------------------------------------- check mode *)
-(* C13_check_mode, general form: a class the chain catches first with a warn-or-reraise clause is reported as a
-   warning in check mode (exactly one outcome), whatever its origin *)
-Lemma warned_by_sound : forall H hs chain c b org,
-  warned_by H hs chain c = Some b ->
-  route H hs true chain (mkexn c org) = [Warned c b].
+(* C13_check_mode, general form: a class whose first handling clause (after clauses that only re-raise or convert it)
+   is a warn-or-reraise clause is reported as exactly one warning in check mode, whatever its origin *)
+Lemma warned_by_sound : forall H hs chain c org d b,
+  warned_by H hs chain c = Some (d, b) ->
+  route H hs true chain (mkexn c org) = [Warned d b].
 Proof.
-  intros H hs chain c b org. induction chain as [|f rest IH]; cbn; intros W; [discriminate|].
+  intros H hs chain. induction chain as [|f rest IH]; cbn; intros c org d b W; [discriminate|].
   destruct (first_clause H c (frame_clauses hs f)) as [cl|] eqn:FC.
   - destruct (c_actions cl) as [|a l] eqn:AC; [discriminate|].
-    destruct a; try discriminate. destruct l; [|discriminate].
-    inversion W; subst. cbn. reflexivity.
+    destruct a as [|x| |]; try discriminate; destruct l; try discriminate.
+    + cbn. rewrite app_nil_r. apply IH; exact W.
+    + cbn. rewrite app_nil_r. apply IH; exact W.
+    + inversion W; subst. cbn. reflexivity.
   - apply IH; exact W.
-Qed.
-
-(* ... and in normal mode the same class passes that clause unchanged: it is routed by the rest of the chain *)
-Lemma warned_by_normal : forall H hs chain c b org,
-  warned_by H hs chain c = Some b ->
-  exists pre f rest, chain = pre ++ f :: rest /\
-     route H hs false chain (mkexn c org) = route H hs false rest (mkexn c org).
-Proof.
-  intros H hs chain c b org. induction chain as [|f rest IH]; cbn; intros W; [discriminate|].
-  destruct (first_clause H c (frame_clauses hs f)) as [cl|] eqn:FC.
-  - destruct (c_actions cl) as [|a l] eqn:AC; [discriminate|].
-    destruct a; try discriminate. destruct l; [|discriminate].
-    exists [], f, rest. split; [reflexivity|]. cbn. rewrite app_nil_r. reflexivity.
-  - destruct (IH W) as [pre [g [r [E R]]]].
-    exists (f :: pre), g, r. split; [rewrite E; reflexivity|]. exact R.
 Qed.
 
 Lemma pick_single : forall o k, pick_outcome [o] k = o.
